@@ -225,7 +225,10 @@ func (g *Gen) evalBin(env *Env, x *SExpr) *Val {
 	b := g.eval(env, x.Args[1])
 	switch op {
 	case "==", "!=":
-		a, b = g.autoLoad(env, a), g.autoLoad(env, b)
+		if !(isScalarKind(a.K) && isScalarKind(b.K)) || (strings.HasPrefix(a.S, "(|sub!") && strings.HasPrefix(b.S, "(|sub!") && a.T != nil && b.T != nil) {
+			// struct-valued operands (a selected embedded struct is denoted by its address): compare by value
+			a, b = g.autoLoad(env, a), g.autoLoad(env, b)
+		}
 		if a.K == KSlice && b.K == KPtr && b.S == "0" || b.K == KSlice && a.K == KPtr && a.S == "0" {
 			sl := a
 			if b.K == KSlice {
@@ -623,6 +626,18 @@ func (g *Gen) evalCall(env *Env, x *SExpr) *Val {
 			specErr(x, "elem needs a struct type")
 		}
 		return &Val{K: KPtr, T: types.NewPointer(t), S: g.elemAddr(t, a.S, j.S)}
+	case "allocbound":
+		// allocbound(): every object allocated so far has an address below this bound
+		return intVal(g.brk(env.cur))
+	case "asnode":
+		// asnode(p): the interface value holding pointer p (of p's static pointer type)
+		a := g.eval(env, x.Args[0])
+		if a.K != KPtr || a.T == nil {
+			specErr(x, "asnode() needs a typed pointer")
+		}
+		r := &Val{K: KIface, S: "(" + g.mkifSym(a.T) + " " + a.S + ")"}
+		g.nodeBaseFact(a.T, a.S, r.S)
+		return r
 	case "local":
 		// local(name): the value of the function's local variable at the point of evaluation (returns, hints)
 		if x.Args[0].Op != "ident" {
